@@ -117,6 +117,9 @@ def cell_xml(spec, string_attr=True) -> str:
     tag = "table:covered-table-cell" if spec.get("cov") else "table:table-cell"
     if spec.get("cs"):
         attrs += f' table:number-columns-spanned="{spec["cs"]}" table:number-rows-spanned="{spec.get("rs", 1)}"'
+    elif spec.get("rs"):
+        # a vertical span written with the rows attribute only (an omitted attribute means 1)
+        attrs += f' table:number-rows-spanned="{spec["rs"]}"'
     if spec.get("nested"):
         # a table inside a cell (text documents): its rows and columns are not the outer table's
         return (f'<{tag}{attrs}><table:table table:name="Inner"><table:table-column table:number-columns-repeated="2"/>'
